@@ -15,10 +15,12 @@ class FnCtx:
     def __init__(self, env, rng):
         self.env, self.rng = env, rng
         mesh, function = env.mesh, env.function
-        self.d = d = int(rng.choice([1, 2, 2, 2, 3, 3]))
+        self.d = d = int(rng.choice([1, 2, 2, 2, 2, 3]))
         nel = [int(rng.integers(1, 3)) for _ in range(d)]
         if d == 1:
             nel = [int(rng.integers(2, 4))]
+        if d == 3:
+            nel = [1, 1, 2]
         if int(numpy.prod(nel)) < 2:
             nel[0] = 2
         self.kind = 'rect'
@@ -29,7 +31,7 @@ class FnCtx:
             self.topo, self.geom0 = mesh.rectilinear([numpy.linspace(0, 1 + .5 * rng.random(), n + 1) for n in nel])
         self.space = self.topo.spaces[0] if hasattr(self.topo, 'spaces') else 'X'
         stretch = rng.uniform(.6, 1.8, size=d)
-        self.geom1 = self.geom0 * stretch + .15 * self.geom0[::-1] ** 2 if rng.random() < .6 else self.geom0 * stretch
+        self.geom1 = self.geom0 * stretch + .15 * self.geom0[::-1] ** 2 if rng.random() < .6 and d < 3 else self.geom0 * stretch
         self.where = str(rng.choice(['interior', 'interior', 'interior', 'boundary', 'boundary', 'interfaces']))
         if self.where == 'interior':
             self.smp = self.topo.sample('gauss', 2)
@@ -41,7 +43,7 @@ class FnCtx:
             self.smp = self.topo.interfaces.sample('gauss', 1)
             self.tipdim = d - 1
         btype = str(rng.choice(['std', 'std', 'discont']))
-        self.basis = self.topo.basis(btype, degree=int(rng.integers(1, 3)))
+        self.basis = self.topo.basis(btype, degree=int(rng.integers(1, 3)) if d < 3 else 1)
         self.nb = len(self.basis)
         self.arguments = {}
         self.nargs = 0
@@ -190,7 +192,8 @@ class FnCtx:
     def spatial(self, G, shape=None, ndim_min=0):
         """An operand that varies in space (so that derivatives are non-trivial)."""
         def p(o):
-            return o.isfn and o.role in ('geom', 'field', 'vfield', 'derived') and (shape is None or o.shape == shape) and o.ndim >= ndim_min
+            return o.isfn and o.role in ('geom', 'field', 'vfield', 'derived') and (shape is None or o.shape == shape) and o.ndim >= ndim_min \
+                and o.dlevel <= (0 if self.d == 3 else 1)
         o = G.pick(p) if self.rng.random() < .6 else None
         if o is None:
             if shape == ():
